@@ -28,9 +28,9 @@ func init() {
 }
 
 var c01Table = map[string]string{
-	"(*rt/middleware.defaultRouter).Lookup: middleware.decodeCompositParams(&p.Name,φ,strings.Split(….(*rt/middleware.routeEntry)#0.PathPattern[((strings.Index(…)+len(…))+2):],\"/\")[0],nil,nil)#1[φ]": "decodeCompositParams appends exactly one value per name at every recursion level, so both result slices have the same length and the index ranges over the names",
-	"rt/middleware.decodeCompositParams: pattern[(strings.Index(pattern,\"{\")+1):strings.Index(pattern,\"}\")]": "pattern is the tail of a spec path template after a '}' in the same segment: the converter regexp {(.+?)}([^/]*) only leaves tails in which every '{' is followed by a matching '}' (balanced templates are a validity requirement of the spec)",
-	"rt/middleware.decodeCompositParams: pattern[(strings.Index(pattern,\"}\")+1):]":                            "same: a '}' exists after the '{' that was found",
+	"decodeCompositParams(…)#1[_]":         "decodeCompositParams appends exactly one value per name at every recursion level, so both result slices have the same length and the index ranges over the names",
+	"_[(Index(_,\"{\")+1):Index(_,\"}\")]": "pattern is the tail of a spec path template after a '}' in the same segment: the converter regexp {(.+?)}([^/]*) only leaves tails in which every '{' is followed by a matching '}' (balanced templates are a validity requirement of the spec)",
+	"_[(Index(_,\"}\")+1):]":               "same: a '}' exists after the '{' that was found",
 }
 
 func runC01(c *Ctx) {
